@@ -327,13 +327,39 @@ func TestVerifC33MutatedFlight13(t *testing.T) {
 		scfg := vfServerConfig(keys[0], vfCertNames(sni)...)
 		srv := Server(prep.SP, scfg)
 		vsrvInstall(srv, s)
-		postN := rapid.IntRange(0, 2).Draw(rt, "npost")
+		postN := rapid.IntRange(0, 3).Draw(rt, "npost")
 		var post [][]byte
 		for i := 0; i < postN; i++ {
 			typ := []uint8{typeNewSessionTicket, typeKeyUpdate, typeCertificateRequest, typeEncryptedExtensions, 25, typeFinished, 99}[rapid.IntRange(0, 6).Draw(rt, fmt.Sprintf("posttype%d", i))]
 			body := rapid.SliceOfN(rapid.Byte(), 0, 60).Draw(rt, fmt.Sprintf("postbody%d", i))
 			if typ == typeKeyUpdate && rapid.Bool().Draw(rt, fmt.Sprintf("postku%d", i)) {
 				body = []byte{byte(rapid.IntRange(0, 2).Draw(rt, fmt.Sprintf("postkuv%d", i)))}
+			}
+			if typ == typeNewSessionTicket && rapid.Bool().Draw(rt, fmt.Sprintf("postnst%d", i)) {
+				// a WELL-FORMED NewSessionTicket with boundary field values (RFC 8446 4.6.1): lifetime, 0..255-byte
+				// ticket_nonce, 1..65535-byte ticket, extensions (early_data with any max size, unknown ones)
+				b := &vsrvB{}
+				lt := rapid.SampledFrom([]uint32{0, 1, 7200, 604800, 604801, 0xffffffff}).Draw(rt, fmt.Sprintf("nst_lifetime%d", i))
+				b.u16(uint16(lt >> 16))
+				b.u16(uint16(lt))
+				b.u16(0x1234)
+				b.u16(0x5678) // ticket_age_add
+				nl := rapid.SampledFrom([]int{0, 1, 8, 32, 254, 255}).Draw(rt, fmt.Sprintf("nst_nonce%d", i))
+				b.vec8(bytes.Repeat([]byte{0x6e}, nl))
+				tl := rapid.SampledFrom([]int{1, 2, 32, 255, 256, 4000}).Draw(rt, fmt.Sprintf("nst_ticket%d", i))
+				b.vec16(bytes.Repeat([]byte{0x74}, tl))
+				var exts []vfExt
+				switch rapid.IntRange(0, 3).Draw(rt, fmt.Sprintf("nst_exts%d", i)) {
+				case 1:
+					exts = append(exts, vfExt{Type: 42, Body: []byte{0xff, 0xff, 0xff, 0xff}})
+				case 2:
+					exts = append(exts, vfExt{Type: 42, Body: []byte{0, 0, 0, 0}}, vfExt{Type: 0x7a7a, Body: []byte{1, 2, 3}})
+				case 3:
+					exts = append(exts, vfExt{Type: 0x1234})
+				}
+				b.vec16(vsrvExts(exts))
+				body = b.b
+				st.Class(fmt.Sprintf("post-handshake-NewSessionTicket(well-formed,nonce=%d)", nl))
 			}
 			post = append(post, vsrvMsg(typ, body))
 		}
